@@ -4485,7 +4485,19 @@ class Fparser2Reader():
                                           ("dim", Literal(str(idx),
                                                           integer_type))]))
             else:
-                loop.addchild(mask_shape[idx-1].upper.copy())
+                # The shape holds the declared bounds: the loop is over the
+                # extent, which is only the upper bound if the lower one is 1.
+                bounds = mask_shape[idx-1]
+                if (isinstance(bounds.lower, Literal) and
+                        bounds.lower.value == "1"):
+                    loop.addchild(bounds.upper.copy())
+                else:
+                    loop.addchild(BinaryOperation.create(
+                        BinaryOperation.Operator.ADD,
+                        BinaryOperation.create(
+                            BinaryOperation.Operator.SUB,
+                            bounds.upper.copy(), bounds.lower.copy()),
+                        Literal("1", integer_type)))
 
             # Add loop increment
             loop.addchild(Literal("1", integer_type))
